@@ -156,7 +156,7 @@ func c07H2(c *lab.Ctx) {
 		"bytewise, and with random multi-cuts: the (header view, body) sequence handed to the stream layer must be identical in every segmentation and equal to the generator's requests; no segmentation may close the connection. " +
 		"distinct = (requests, fragments class, cut class)")
 	rng := c.Rand("h2seg")
-	nStreams := c.Pick(300, 3000)
+	nStreams := c.Pick(1000, 3000)
 	for si := 0; si < nStreams; si++ {
 		srng := rng.Fork()
 		if si%c.NBatch != c.Batch {
@@ -217,7 +217,7 @@ func c07H2(c *lab.Ctx) {
 		if len(in) <= 3000 {
 			segs = append(segs, segm{"bytewise", bw})
 		}
-		for k := 0; k < c.Pick(30, 120); k++ {
+		for k := 0; k < c.Pick(60, 120); k++ {
 			n := 2 + srng.Intn(5)
 			var cs []int
 			for j := 0; j < n; j++ {
